@@ -1,10 +1,8 @@
 package txn
 
 import (
-	"bytes"
 	"fmt"
 	"math/big"
-	"sort"
 	"testing"
 
 	"github.com/shopspring/decimal"
@@ -19,6 +17,7 @@ import (
 	"verif/harness/internal/ev"
 	"verif/harness/internal/gen"
 	"verif/harness/internal/hx"
+	"verif/harness/internal/ref/create"
 	"verif/harness/internal/ref/rules"
 	"verif/harness/internal/ref/txref"
 )
@@ -311,132 +310,22 @@ func checkCreate(c createCase) (class string, err error) {
 		return "", errf("valid request failed: %v (offered coins %s hours %s, requested coins %s hours %s)", cerr, totalCoins, totalHours, reqCoins, reqHours)
 	}
 	// ---- success ----
-	if ok, why := rules.WellFormed(txn, false); !ok {
-		return "", errf("created transaction is not well formed: %s", why)
+	// the returned input balances describe the inputs (function-level result only; everything else is judged by the
+	// oracle shared with the node-level check)
+	if len(inputs) != len(txn.In) {
+		return "", errf("returned %d input balances for %d inputs", len(inputs), len(txn.In))
 	}
-	if e := txn.VerifyUnsigned(); e != nil {
-		return "", errf("created transaction fails VerifyUnsigned: %v", e)
-	}
-	seen := map[cipher.SHA256]bool{}
-	var uxIn []coin.UxOut
-	inCoins, inHours := new(big.Int), new(big.Int)
 	for i, h := range txn.In {
 		ux, ok := offered[h]
 		if !ok {
 			return "", errf("input %d (%s) was not offered", i, h.Hex())
 		}
-		if seen[h] {
-			return "", errf("input %s spent twice", h.Hex())
-		}
-		seen[h] = true
-		uxIn = append(uxIn, ux)
-		inCoins.Add(inCoins, bu(ux.Body.Coins))
 		v, _ := rules.Accrued(ux, c.headTime)
-		inHours.Add(inHours, v)
-		if i >= len(inputs) || inputs[i].Hash != h || bu(inputs[i].Hours).Cmp(v) != 0 || inputs[i].Coins != ux.Body.Coins {
+		if inputs[i].Hash != h || bu(inputs[i].Hours).Cmp(v) != 0 || inputs[i].Coins != ux.Body.Coins {
 			return "", errf("returned input balance %d does not describe input %s", i, h.Hex())
 		}
 	}
-	if len(inputs) != len(txn.In) {
-		return "", errf("returned %d input balances for %d inputs", len(inputs), len(txn.In))
-	}
-	if ok, why := rules.Hard(txn, c.headTime, uxIn, false, rules.Single); !ok {
-		return "", errf("created transaction violates the hard rules: %s", why)
-	}
-	if len(txn.Out) < len(c.p.To) {
-		return "", errf("fewer outputs than receivers")
-	}
-	toHours := new(big.Int)
-	for i, to := range c.p.To {
-		o := txn.Out[i]
-		if o.Address != to.Address || o.Coins != to.Coins {
-			return "", errf("output %d = (%s,%d) but requested (%s,%d)", i, o.Address, o.Coins, to.Address, to.Coins)
-		}
-		if c.p.HoursSelection.Type == transaction.HoursSelectionTypeManual && o.Hours != to.Hours {
-			return "", errf("output %d has %d hours, requested %d", i, o.Hours, to.Hours)
-		}
-		toHours.Add(toHours, bu(o.Hours))
-	}
-	changeCoins := new(big.Int).Sub(inCoins, reqCoins)
-	if changeCoins.Sign() < 0 {
-		return "", errf("inputs carry fewer coins than requested")
-	}
-	class = "ok_nochange"
-	if changeCoins.Sign() == 0 {
-		if len(txn.Out) != len(c.p.To) {
-			return "", errf("no coins remain but there are %d extra outputs", len(txn.Out)-len(c.p.To))
-		}
-	} else {
-		if len(txn.Out) != len(c.p.To)+1 {
-			return "", errf("%s coins remain but there are %d outputs for %d receivers", changeCoins, len(txn.Out), len(c.p.To))
-		}
-		ch := txn.Out[len(c.p.To)]
-		if bu(ch.Coins).Cmp(changeCoins) != 0 {
-			return "", errf("change output carries %d coins, want %s", ch.Coins, changeCoins)
-		}
-		want := cipher.Address{}
-		if c.p.ChangeAddress != nil {
-			want = *c.p.ChangeAddress
-		} else {
-			var bs [][]byte
-			for _, ux := range uxIn {
-				bs = append(bs, ux.Body.Address.Bytes())
-			}
-			sort.Slice(bs, func(i, j int) bool { return bytes.Compare(bs[i], bs[j]) < 0 })
-			want, _ = cipher.AddressFromBytes(bs[0])
-		}
-		if ch.Address != want {
-			return "", errf("change sent to %s, want %s", ch.Address, want)
-		}
-		class = "ok_change"
-	}
-	// fee
-	outHours := new(big.Int)
-	for _, o := range txn.Out {
-		outHours.Add(outHours, bu(o.Hours))
-	}
-	burned := new(big.Int).Sub(inHours, outHours)
-	if burned.Cmp(ceilDiv(inHours, burn)) < 0 {
-		return "", errf("burns %s hours of %s, required %s", burned, inHours, ceilDiv(inHours, burn))
-	}
-	// automatic hours: sum == floor(share * remaining) for the inputs (or the inputs without the
-	// trailing extra input that is added to create change), or == remaining after the share=1 fallback
-	if c.p.HoursSelection.Type == transaction.HoursSelectionTypeAuto {
-		share, _ := new(big.Rat).SetString(c.p.HoursSelection.ShareFactor.String())
-		rem := func(h *big.Int) *big.Int { return new(big.Int).Sub(h, ceilDiv(h, burn)) }
-		alloc := func(h *big.Int) *big.Int {
-			x := new(big.Rat).Mul(share, new(big.Rat).SetInt(rem(h)))
-			return new(big.Int).Quo(x.Num(), x.Denom())
-		}
-		allowed := []*big.Int{alloc(inHours)}
-		if len(uxIn) >= 2 {
-			last, _ := rules.Accrued(uxIn[len(uxIn)-1], c.headTime)
-			allowed = append(allowed, alloc(new(big.Int).Sub(inHours, last)))
-		}
-		if changeCoins.Sign() == 0 {
-			allowed = append(allowed, rem(inHours))
-		}
-		ok := false
-		for _, a := range allowed {
-			if a.Cmp(toHours) == 0 {
-				ok = true
-			}
-		}
-		if !ok {
-			return "", errf("auto hours: receivers get %s hours in total, allowed totals %v (share %s, input hours %s)", toHours, allowed, c.p.HoursSelection.ShareFactor, inHours)
-		}
-		// proportionality: each receiver gets floor(c_i*A/total) .. +2
-		for i, to := range c.p.To {
-			lo := new(big.Int).Mul(bu(to.Coins), toHours)
-			lo.Quo(lo, reqCoins)
-			hi := new(big.Int).Add(lo, big.NewInt(2))
-			h := bu(txn.Out[i].Hours)
-			if h.Cmp(lo) < 0 || h.Cmp(hi) > 0 {
-				return "", errf("auto hours: receiver %d got %s hours, proportional share is %s", i, h, lo)
-			}
-		}
-	}
-	return class, nil
+	return create.CheckSuccess(c.p, c.all, c.headTime, txn, params.UserVerifyTxn.BurnFactor)
 }
 
 func TestC12_Create(t *testing.T) {
